@@ -36,6 +36,13 @@ theorem judgeEv_nil_iff_clean (cmds : List String) : ∀ (evs : List Ev) (k : Na
         simp [h, this]
       · have hb : b = 0 := by omega
         simp [hb, ih]
+    | holder t b f =>
+      simp only [judgeEv, List.all_cons, clean]
+      by_cases h : b > 0
+      · have : (b == 0) = false := by simp; omega
+        simp [h, this]
+      · have hb : b = 0 := by omega
+        simp [hb, ih]
 
 /-! negative examples: one per clause of the oracle -/
 example : judgeEv ["idx index arr 5 1 0 0"] 0 [.sanitizer "heap-buffer-overflow"] ≠ [] := by decide
@@ -49,11 +56,13 @@ example : judgeEv ["idx lnn arr 5 1 0 70000"] 0 [.lpcError "Illegal array size."
 example : judgeEv ["run p1 run"] 0 [.malformed "garbage"] ≠ [] := by decide
 example : judgeEv ["run re0 run"] 0 [.reent 14 1 "p0.d1", .result "fz re0 run done"] ≠ [] := by decide
 example : judgeEv ["run re0 run"] 0 [.reent 3 7 ""] ≠ [] := by decide
+example : judgeEv ["run ep0 run"] 0 [.holder 12 1 "t3.h1", .result "fz ep0 run done"] ≠ [] := by decide
 /-- a forbidden event after any number of good commands is still reported -/
 example : (judgeEv ["idx index arr 5 1 0 0", "errlen 5 0", "run p run"] 0
     [.result "r i 1", .lpcError "abcde", .result "r errlen done", .sanitizer "SEGV"]).map (·.kind) = ["sanitizer"] := by decide
 /-! positive examples -/
 example : judgeEv ["idx index arr 5 9 0 0"] 0 [.lpcError "*Array index out of bounds.", .result "r !err"] = [] := by decide
 example : judgeEv ["run re0 run"] 0 [.reent 14 0 "", .result "fz re0 run done"] = [] := by decide
+example : judgeEv ["run ep0 run"] 0 [.holder 12 0 "", .result "fz ep0 run done"] = [] := by decide
 
 end NV.C01
